@@ -25,9 +25,33 @@ pub const NAME_GROUPS: [&[&str]; 6] = [
     &["ü", "日本", "e\u{301}", "ß😀", "a\u{303}b"],
     // odd ASCII
     &["-", "~", "a\\b", "%41", "'q'", "*", "?", "a:b", "$x", "A"],
-    // long
-    &["L"],
+    // long ("L": ASCII, "M": multi-byte, both expanded by the pool strategy)
+    &["L", "M"],
 ];
+
+/// long multi-byte name: `lead` ASCII bytes, then 'ü' (2 bytes) up to about n bytes - so that byte
+/// offsets inside paths fall into the middle of a scalar for some lead
+pub fn long_mb_name(n: usize, lead: usize) -> String {
+    let mut s = String::from("M");
+    for _ in 0..lead {
+        s.push('m');
+    }
+    while s.len() + 2 <= n {
+        s.push('ü');
+    }
+    s
+}
+
+/// cut a name to at most `max` bytes on a character boundary
+pub fn cut_name(n: &mut String, max: usize) {
+    if n.len() > max {
+        let mut k = max;
+        while !n.is_char_boundary(k) {
+            k -= 1;
+        }
+        n.truncate(k);
+    }
+}
 
 pub fn long_name(n: usize) -> String {
     let mut s = String::from("L");
@@ -59,7 +83,7 @@ pub fn pool_strategy() -> impl Strategy<Value = Vec<String>> {
         1 => (0usize..6, any::<u16>()).prop_map(|(g, i)| {
             let grp = NAME_GROUPS[g];
             let mut name = grp[idx(i, grp.len())].to_string();
-            if name == "L" || name == "a" {
+            if name == "L" || name == "M" || name == "a" {
                 name = "b.c".to_string();
             }
             vec!["a".to_string(), name]
@@ -73,13 +97,16 @@ fn base_pool_strategy() -> impl Strategy<Value = Vec<String>> {
         for (g, i) in picks {
             let grp = NAME_GROUPS[g];
             let mut name = grp[idx(i, grp.len())].to_string();
+            let want = match longsel {
+                0 => 200,
+                1 => 254,
+                2 => 255,
+                _ => 100,
+            };
             if name == "L" {
-                name = long_name(match longsel {
-                    0 => 200,
-                    1 => 254,
-                    2 => 255,
-                    _ => 100,
-                });
+                name = long_name(want);
+            } else if name == "M" {
+                name = long_mb_name(want, i as usize % 4);
             }
             if !pool.contains(&name) {
                 pool.push(name);
